@@ -265,7 +265,10 @@ func (s *BuiltinType) FilterJson(data json.RawMessage, _ *TypeLookup) (json.RawM
 			if err := json.Unmarshal(data, &tmp); err != nil {
 				return data, true, err
 			}
-			if i := int64(tmp); float64(i) != tmp {
+			if i := int64(tmp); float64(i) != tmp ||
+				!bytes.ContainsAny(data, ".eE") {
+				// Not integral, or an integer literal which does not fit
+				// in 64 bits (and must not be rounded to one that does).
 				return data, true, err
 			} else if b, jerr := json.Marshal(&i); jerr != nil {
 				return data, true, err
